@@ -114,16 +114,33 @@ theorem scalarToVector0_numer {q r : Q0 α} (hwf : WF0 q) (hn : q.numer = []) (h
   show q.vals.get (unravel q.vals.shape (ravel (q.shape ++ [1] ++ q.denom) (i ++ kn ++ kd))) = _
   rw [hvs, reshape_mid q.shape [] [1] q.denom i kn kd (by simp [size_cons, size_nil]) hi hkn hkd]
 
+/-- `q'` is `q` with its item axes re-split after the first `k`: the SAME values array, leading shape and mask -/
+structure SplitOf (k : Nat) (q q' : Q0 α) : Prop where
+  vals : q'.vals = q.vals
+  shape : q'.shape = q.shape
+  mask : q'.mask = q.mask
+  item : q'.numer ++ q'.denom = q.numer ++ q.denom
+  nrank : q'.numer.length = k
+
+theorem splitItems_splitOf {q r : Q α} {cs : List Cls} (hwf : WF0 q.base) (hn : 1 ≤ q.base.numer.length)
+    (h : splitItems q 1 cs = .ok r) : SplitOf 1 q.base r.base ∧ WF0 r.base := by
+  obtain ⟨a1, a2, a3, a4, a5, a6⟩ := splitItems_spec (n := (q.base.numer ++ q.base.denom).take 1)
+    (d := (q.base.numer ++ q.base.denom).drop 1) hwf (List.take_append_drop _ _).symm
+    (by rw [List.length_take, List.length_append]; omega) h
+  refine ⟨⟨a1, a2, a5, by rw [a3, a4, List.take_append_drop], ?_⟩, a6⟩
+  rw [a3, List.length_take, List.length_append]; omega
+
 /-- **as_vector** (recursive=True), branch by branch: already a vector class → unchanged; numerator rank 1 or a
     1×N / N×1 matrix → `flatten_numer` (one numerator map for values and every derivative); item-less → a unit
-    numerator axis is inserted in values and every derivative; anything else → `split_items(1)`: the same values
-    array and mask, the item axes re-split after the first, derivatives removed (documented for split_items) -/
+    numerator axis is inserted in values and every derivative; anything else → `split_items(1)` applied to the
+    object AND (since the repair of the split branch) to every derivative: the same values arrays and masks, the
+    item axes re-split after the first -/
 theorem asVector_relabel {q r : Q α} (hwf : WF q) (h : asVector q true = .ok r) :
     SameData q r ∨
     ObjNumerReindex (fun kn => unravel q.base.numer (ravel [size q.base.numer] kn)) [size q.base.numer] q r ∨
     (q.base.numer = [] ∧ ObjNumerReindex (fun kn => unravel [] (ravel [1] kn)) [1] q r) ∨
-    (r.base.vals = q.base.vals ∧ r.base.shape = q.base.shape ∧ r.base.mask = q.base.mask ∧
-      r.base.numer ++ r.base.denom = q.base.numer ++ q.base.denom ∧ r.base.numer.length = 1 ∧ r.derivs = []) := by
+    (SplitOf 1 q.base r.base ∧
+      List.Forall₂ (fun kd kd' => kd.1 = kd'.1 ∧ SplitOf 1 kd.2 kd'.2) q.derivs r.derivs) := by
   unfold asVector at h
   split at h
   · injection h with h; subst h; exact Or.inl (SameData.refl q)
@@ -147,17 +164,19 @@ theorem asVector_relabel {q r : Q α} (hwf : WF q) (h : asVector q true = .ok r)
         · split at h
           · rename_i h0 h1 h2 h3 hrank
             have hlen : 1 ≤ q.base.numer.length := by omega
-            obtain ⟨a1, a2, a3, a4, a5, _⟩ := splitItems_spec (n := (q.base.numer ++ q.base.denom).take 1)
-              (d := (q.base.numer ++ q.base.denom).drop 1) hwf.base (List.take_append_drop _ _).symm
-              (by rw [List.length_take, List.length_append]; omega) h
-            refine Or.inr (Or.inr (Or.inr ⟨a1, a2, a5, by rw [a3, a4, List.take_append_drop], ?_, ?_⟩))
-            · rw [a3, List.length_take, List.length_append]; omega
-            · unfold splitItems at h
-              simp only at h
-              split at h; · cases h
-              obtain ⟨o1, _, h⟩ := bind_ok.1 h
-              obtain ⟨o2, _, h⟩ := bind_ok.1 h
-              have := pure_ok.1 h; subst this; rfl
+            obtain ⟨r0, hr0, h⟩ := bind_ok.1 h
+            obtain ⟨ds, hds, h⟩ := bind_ok.1 h
+            have := pure_ok.1 h; subst this
+            obtain ⟨hsp, _⟩ := splitItems_splitOf hwf.base hlen hr0
+            refine Or.inr (Or.inr (Or.inr ⟨hsp, ?_⟩))
+            apply mapDerivs_forall₂ _ q.derivs ds _ hds
+            intro kd hkd d1 hd1
+            obtain ⟨w, hs, hnn⟩ := hwf.derivs kd hkd
+            unfold splitItems0 at hd1
+            obtain ⟨rd, hrd, e⟩ := map_ok.1 hd1
+            subst e
+            obtain ⟨hd, _⟩ := splitItems_splitOf (q := ⟨kd.2, []⟩) w (by show 1 ≤ kd.2.numer.length; rw [hnn]; exact hlen) hrd
+            exact ⟨hd, hd.shape.trans (hs.trans hsp.shape.symm)⟩
           · rename_i h0 h1 h2 h3 hrank
             exfalso; omega
 
@@ -173,7 +192,9 @@ example : ((asVector (α := Int) ⟨⟨.scalar, [2], [], [], ⟨[2], fun i => (r
    and the same for asPair, asMatrix. -/
 
 /-- as_vector3 of an operand that HAS a numerator axis and no denominator (a 3-vector of another class):
-    pure class coercion, derivatives included -/
+    pure class coercion, derivatives included.  (With a denominator the operand AND every derivative go through
+    `split_items(1)` first — a no-op re-split for numerator rank 1 — and the derivatives are kept; that branch is
+    tied, not stated here.) -/
 theorem asVector3_partial {q r : Q α} (hwf : WF q) (hn : q.base.numer.length ≠ 0)
     (hrank : q.base.numer.length + q.base.denom.length ≤ 1) (h : asVector3 q true = .ok r) : SameData q r := by
   unfold asVector3 at h
